@@ -19,7 +19,7 @@ type C14Case struct {
 }
 
 func GenC14() *rapid.Generator[C14Case] {
-	dag := genNet(NetCfg{MinHidden: 1, AllowOrphans: true, LongChains: true, Rename: true, Dense: true})
+	dag := genNet(NetCfg{MinHidden: 1, AllowOrphans: true, LongChains: true, Rename: true, Dense: true, FlaggedLinks: true})
 	cyc := genNet(NetCfg{MinHidden: 1, Cyclic: true, ParallelLinks: true, MaxHidden: 6, Rename: true})
 	return rapid.Custom(func(t *rapid.T) C14Case {
 		var c C14Case
